@@ -77,10 +77,14 @@ pub fn roots_of(part: &mut Part, seen: &Seen, kind: K, m: &Bits, provs: &[Prov])
 }
 
 pub const PROVS_PLAIN: &[Prov] = &[Prov::Fresh];
+/// identity histories: routes through arithmetic wrap-around, growth with ones and truncation,
+/// truncation followed by bit-by-bit regrowth across a word boundary. On a correct tree they all
+/// produce the fresh representation (and are de-duplicated); a latent-state defect makes them differ.
+pub const PROVS_HIST: &[Prov] = &[Prov::Fresh, Prov::Trunc, Prov::SubWrap, Prov::AddWrap, Prov::GrowOnes, Prov::ShrinkPush];
 pub const PROVS_ALL: &[Prov] = ALL_PROVS;
 /// provenances that can yield a representation different from the fresh one
-pub const PROVS_SPARE: &[Prov] = &[Prov::Fresh, Prov::Reserve200, Prov::GrowShrink, Prov::DynExact, Prov::WithCap];
-pub const PROVS_SPARE2: &[Prov] = &[Prov::Fresh, Prov::Reserve200, Prov::DynExact];
+pub const PROVS_SPARE: &[Prov] = &[Prov::Fresh, Prov::Reserve200, Prov::GrowShrink, Prov::DynExact, Prov::WithCap, Prov::SubWrap, Prov::AddWrap, Prov::ShrinkPush];
+pub const PROVS_SPARE2: &[Prov] = &[Prov::Fresh, Prov::Reserve200, Prov::DynExact, Prov::ShrinkPush];
 
 pub fn dom_full(part: &mut Part, seen: &Seen, kind: K, b: usize, provs: &[Prov]) -> Vec<Vo> {
     let b = kind.cap().map_or(b, |c| c.min(b));
@@ -269,9 +273,11 @@ pub fn run_bin_plan(cfg: &Cfg, plan: &BinPlan) -> (Part, Value, bool) {
                     let extra = dom_full(part, &seen, k, b.min(if as_lhs { 5 } else { 4 }), provs);
                     let have: std::collections::HashSet<Raw> = v.iter().map(|x| x.v.raw()).collect();
                     v.extend(extra.into_iter().filter(|x| !have.contains(&x.v.raw())));
-                } else if b <= 6 {
-                    // all provenances of fixed kinds must be representation-identical: just validate
-                    dom_full(part, &seen, k, b.min(4), PROVS_ALL);
+                } else {
+                    // identity histories of fixed kinds: identical representations on a correct tree
+                    let extra = dom_full(part, &seen, k, b.min(6), PROVS_HIST);
+                    let have: std::collections::HashSet<Raw> = v.iter().map(|x| x.v.raw()).collect();
+                    v.extend(extra.into_iter().filter(|x| !have.contains(&x.v.raw())));
                 }
                 Arc::new(v)
             })
@@ -296,7 +302,7 @@ pub fn run_bin_plan(cfg: &Cfg, plan: &BinPlan) -> (Part, Value, bool) {
             .entry((k, as_lhs))
             .or_insert_with(|| {
                 let lengths = if plan.lat_short { enumr::lat_lengths_short(k) } else { enumr::lat_lengths(k) };
-                let provs: &[Prov] = if k == K::D || k == K::A { if as_lhs { PROVS_SPARE } else { PROVS_SPARE2 } } else { PROVS_PLAIN };
+                let provs: &[Prov] = if k == K::D || k == K::A { if as_lhs { PROVS_SPARE } else { PROVS_SPARE2 } } else { PROVS_HIST };
                 Arc::new(dom_lat(part, &seen, k, &lengths, if as_lhs { plan.lat_runs } else { plan.lat_runs.min(2) }, provs))
             })
             .clone()
@@ -557,7 +563,7 @@ pub fn run_unary_plan(cfg: &Cfg, plan: &UnaryPlan) -> (Part, Value, bool) {
     let mut desc: Vec<Value> = Vec::new();
     for (kinds, b, alpha) in &plan.full {
         for &k in kinds {
-            let provs: &[Prov] = if k == K::D || k == K::A { PROVS_SPARE } else { PROVS_PLAIN };
+            let provs: &[Prov] = if k == K::D || k == K::A { PROVS_SPARE } else { PROVS_HIST };
             // provenance variants only for the small lengths; plain fresh roots above
             let mut dom = dom_full(&mut part, &seen, k, (*b).min(6), provs);
             let have: std::collections::HashSet<Raw> = dom.iter().map(|x| x.v.raw()).collect();
@@ -577,7 +583,7 @@ pub fn run_unary_plan(cfg: &Cfg, plan: &UnaryPlan) -> (Part, Value, bool) {
     }
     for (kinds, runs, alpha) in &plan.lat {
         for &k in kinds {
-            let provs: &[Prov] = if k == K::D || k == K::A { PROVS_SPARE } else { PROVS_PLAIN };
+            let provs: &[Prov] = if k == K::D || k == K::A { PROVS_SPARE } else { PROVS_HIST };
             let lengths = if plan.lat_short { enumr::lat_lengths_short(k) } else { enumr::lat_lengths(k) };
             let mut dom = dom_lat(&mut part, &seen, k, &lengths, *runs, provs);
             {
